@@ -383,6 +383,9 @@ class ArrayLiteral(Expression):
         return isinstance(other, ArrayLiteral) and self.items == other.items
 
     def __str__(self) -> str:
+        if len(self.items) == 1:
+            # A trailing comma makes a one item array literal.
+            return f"{self.items[0]},"
         return ", ".join(str(e) for e in self.items)
 
     def __hash__(self) -> int:
